@@ -15,6 +15,11 @@
 //! `Err(_)`, which must stay an error), on i8 i16 i32 i64 u8 u16 u32 u64 f32 f64 with values at the limits of every type,
 //! beyond 2^53 / 2^63, subnormal, -0.0 (native kernel with the harness's OWN casts, not the crate's to_f64/from_f64), on big and
 //! zero-length shapes; frexp / ldexp / recombination on the three receivers and on long arrays.
+//!
+//! Round 5 (exact values, seeds, sizes above 2^24): value class `sweep` (dense boundary pools per element type, see `sweep_f64`),
+//! `round<d>` / `around<d>` / `roundv` (decimals swept), `frexpn` / `ldexpn` / `roundtripn` (dense pools, field-based native reference
+//! validated against the rational model), `folds` (special values as fold SEED for six accumulator types), an f32 image with NaN /
+//! inf / -0.0 ELEMENTS for every closure case, `giant` (u8 arrays above 2^20 and 2^24 elements judged in place).
 use arrharness::*;
 
 // ------------------------------------------------------------------ closures
@@ -1619,13 +1624,14 @@ fn gen(tier: &str, seed: u64, out: &mut dyn FnMut(String)) {
         }
         // the same special values as i64 INIT of the ordinary fold line (S = i64) are covered by `folds .. i64`
     }
-    // ---- (20) / (11) GIANT arrays: u8, above 2^24 elements ([16 777 219], [4097, 4097]: `as f32` arithmetic on a count or a position is
+    // ---- (20) / (11) GIANT arrays: u8, above 2^24 elements ([16 777 221], [4097, 4097]: `as f32` arithmetic on a count or a position is
     //      exact up to 2^24) and above 2^20 (giant_shapes()); closure ops and both IntoIterator impls with the stamping closure, judged in
     //      place (the closure checks call number / position / element call by call); one-operand ops on u8 against the 256-entry table
     //      of the native kernel, plain and Ok(_) receiver.  The driver answers `ok native`.
     {
-        // (2^24 + 3 elements: the COUNT and the last POSITIONS 2^24 + 1, 2^24 + 2 are all not representable in f32)
-        let g24: [Vec<usize>; 2] = [vec![(1 << 24) + 3], vec![4097, 4097]];
+        // (2^24 + 5 elements: the COUNT rounds DOWN in f32, to 2^24 + 4, so a `take(len as f32 as usize)` loses the last element, and the
+        //  POSITIONS 2^24 + 1 and 2^24 + 3 are not representable either; 4097^2 = 2^24 + 8193 rounds down as well)
+        let g24: [Vec<usize>; 2] = [vec![(1 << 24) + 5], vec![4097, 4097]];
         let gs = giant_shapes();
         let giant_ops: Vec<&str> = cl_ops.iter().copied().chain(["into_iter", "into_iter_ref"]).collect();
         for (oi, op) in giant_ops.iter().enumerate() {
@@ -1645,9 +1651,10 @@ fn gen(tier: &str, seed: u64, out: &mut dyn FnMut(String)) {
                 if thorough || (oi + seed as usize) % 4 == 0 { out(format!("giant unary {op} {}", show_list(&small_giants[(oi + seed as usize) % 2]))); }
                 continue;
             }
-            // quick: every op above 2^20, a third of them (rotating with the seed) above 2^24; thorough: every op above 2^24 as well
-            out(format!("giant unary {op} {}", show_list(&gs[(oi + seed as usize) % gs.len()])));
-            if *op != "sign" && (thorough || (oi + seed as usize) % 3 == 0) { out(format!("giant unary {op} {}", show_list(&g24[oi % 2]))); }
+            // every op above 2^24 (the two shapes alternate with op and seed); a third of them (rotating with the seed; thorough: all, and
+            // `sign` always) also on one of the many-axis shapes above 2^20
+            if *op != "sign" { out(format!("giant unary {op} {}", show_list(&g24[(oi + seed as usize) % 2]))); }
+            if thorough || *op == "sign" || (oi + seed as usize) % 3 == 0 { out(format!("giant unary {op} {}", show_list(&gs[(oi + seed as usize) % gs.len()]))); }
         }
     }
     out("audit".to_string());
@@ -1683,5 +1690,6 @@ unary math: 43 ops x {f64,f32,i32} x shapes (rank<=4 len<=2 + selected, quick; a
 frexp/ldexp/ldexp(frexp): bit patterns of all powers of two 2^-1074..2^1023 (every 37th in quick) with both neighbours and signs, extremes, subnormals, random patterns, f32-representable values, +-0, NaN, +-inf under a 5 s watchdog. \
 ROBUSTNESS STREAMS: closures on every big_shapes() entry (axis lengths 7..17, > 256 / 1024 / 4096 elements) and zero_shapes() entry x the 9 closure ops x 1-3 stamping closures whose answer depends on the passed index, on the number of earlier calls and on the element, + random long shapes; every closure / into_iter case also on the f64 (tag 0 = -0.0, bit-wise), u8 and String images of the array (same transcript required); unary: 48 ops (the 43 + reciprocal, negative, positive, bitwise_not, invert) x i8,i16,i32,i64,u8,u16,u32,u64,f32,f64 (where defined) x classes dom/lim (limits of the type, beyond 2^53 / 2^63, subnormals, -0.0), native kernel with the harness own casts, on small, big and zero-length shapes; EVERY unary / frexp / ldexp / roundtrip case on three receivers - a.op(), Ok(a).op() (bit-identical) and Err(_).op() (must stay an error); frexp/ldexp/roundtrip on arrays of 81..1030 (thorough 4100) elements, all subnormal exponents, the top binade, zero-length shapes. \
 PART 2: RE-ENTRANT closures (`re`): each of the 9 closure ops as outer operation x each of the 9 as the inner operation its closure runs on another array / on the receiver itself (inner answers checked against Vec arithmetic, outer transcript against the model); collect from iterators with inexact size hints (6 kinds, lengths 0..1030), clone_from over arrays of other shapes; value class `near` (flat-adjacent values 1 ulp / 1e-13 / 1e-15 relative / 1e-13 absolute apart, each followed by the base value; integers v, v+1, v, v-1) for every one-operand op x every element type, i0 against a harness-native Cephes kernel; A-B-A: every unary case <= 600 elements re-runs after the same op on a second array (also judged), every closure case re-runs on i64 after the f64/u8/String runs, frexp/ldexp re-run after the other receivers, and for a third of all lines the PREVIOUS line is executed again and must get the same verdict; shapes colliding under weak polynomial hashes (multipliers 31,33,37,131,257) back to back A B A / B A B through closures and unary ops; every axis length 1..300 (enumerating closures); huge_shapes() (16 384..140 000 elements): unary ops through the model, closures (`hclo`) against the harness-native reference transcript, which is validated against the model on every other closure case of the run (`audit` line demands >= 1000 validations). \
+ROUND 5: value class `sweep` - every one-operand op (and round / around with 33 decimals arguments -400..400 + a decimals array of the receiver's shape) x every element type on the whole boundary pool of the type (f64 25 472 values: every integer and half in -1100..1100, the constants with negatives / reciprocals / neighbours, 2^k k=-1080..1030 and 10^k k=-325..309 with one ulp on each side, multiples of pi/4 pi/6 pi, squares, cubes, overflow thresholds, type limits; f32 ~15 000; i8/u8 the whole type; wider integers 1400-2700); frexpn / ldexpn / roundtripn on the same pools and every exact exponent -2097..2097 judged by a field-based native reference that is validated against the rational model on every ordinary float case; `folds`: fold with accumulator types f64 / f32 / i64 / String / Tuple2<f64,i64> / List<f64> and NaN (both signs, payload) / +-inf / -0.0 / 0 / +-1 / MAX / MIN / subnormal seeds, `f64n` every accumulator a NaN; every closure case also on an f32 image whose tags 0..11 are NaN, +-inf, -0.0, 0.0, MAX, MIN_POSITIVE, subnormal, +-1, MIN, EPSILON; `giant`: u8 arrays of 2^24+5 / 4097^2 / giant_shapes() elements through the 9 closure ops, both IntoIterator impls (closure checks call number, position, element call by call; result compared in place) and every one-operand op defined on u8 (256-entry kernel table); the in-place judge runs in shadow on every model-confirmed closure case with u8 tags (audit line). \
 distinct = distinct case lines; non-trivial = array with >= 2 elements (closure/unary) or containing a finite non-zero value (float ops)" });
 }
